@@ -38,7 +38,27 @@ package reghttp
 //@   let h0 = $hostOf(resp.client, resp.mirror)
 //@   ensures backoff-at-least-configured-delay: h0.backoffCur > 0 ==> $ns(t) >= $ns(old(h0.backoffLast)) + resp.client.delayInit
 //@   ensures released-time-recorded: h0.backoffCur > 0 ==> h0.backoffLast == t
+//@   entry-assume $bgNow == 0
+//@   on-call time.Now: $bgNow = $ns(result)
+//@   ensures pending-deadline-handed-out: old(h0.backoffCur) <= 0 ==> (t == old(h0.backoffLast) || $ns(old(h0.backoffLast)) < $bgNow)
 
+// C12 "backed off from for at least the configured (or server-requested) delay": when the answer
+// carries a Retry-After that parses to a positive number of seconds, backoffSet leaves the host's
+// release time no earlier than the moment it read the clock plus that many seconds - the server's
+// figure is not reduced to any client-side bound - and backoffGet hands a pending deadline of a
+// host without counted back-off out unchanged unless it has already passed.
+//@ ghost $raAsked int
+//@ ghost $raNow int
+//@ ghost $bgNow int
+//@ func (*Resp).backoffSet() (err)
+//@   prop C12
+//@   entry-assume resp != nil && resp.client != nil
+//@   entry-assume $raAsked == 0 && $raNow == 0
+//@   let h0 = $hostOf(resp.client, resp.mirror)
+//@   on-call time.ParseDuration: $raAsked = result0
+//@   on-call time.Now: $raNow = $ns(result)
+//@   ensures server-requested-delay-kept-in-full: $raAsked > 0 ==> err == nil && $ns(h0.backoffLast) >= $raNow + $raAsked
+//@   ensures release-time-never-moves-back: $ns(h0.backoffLast) >= $ns(old(h0.backoffLast))
 // C12 a pending server-requested delay survives other traffic: backoffSet records a Retry-After
 // deadline in backoffLast without counting a failure (backoffCur stays 0), so a success
 // notification (backoffReset) for a host whose counted back-off is already zero must not touch
